@@ -98,12 +98,28 @@ Definition int_in_range (k : ikind) (z : Z) : bool :=
   | KU64 => (Z.leb 0 z && Z.ltb z (2 ^ 64))%Z
   end.
 
+(** every dict, at every level, has pairwise distinct keys (a Go map) *)
+Fixpoint keys_nodup (ks : list bytes) : bool :=
+  match ks with
+  | [] => true
+  | k :: t => negb (existsb (bytes_eqb k) t) && keys_nodup t
+  end.
+
+Fixpoint dicts_ok (v : value) : bool :=
+  match v with
+  | VList l => forallb dicts_ok l
+  | VDict d => keys_nodup (map fst d) && forallb (fun kv => dicts_ok (snd kv)) d
+  | _ => true
+  end.
+
 (** ** Dictionaries as Go maps.
 
-    A Go map holds one value per key.  Decoders build the map by assigning
-    entries in stream order, so a repeated key keeps its LAST value.
-    [dict_norm] does that to an association list (first-occurrence order,
-    last value); [value_norm] applies it at every level. *)
+    A Go map holds one value per key.  What ugorji does with a key that
+    occurs twice in one stream map depends on the types of the two values (the
+    second is decoded INTO the first when that is a map or slice, and is an
+    error when the types do not fit): such streams are outside the model
+    ([dicts_ok] false -> no claim).  [dict_norm]/[value_norm] (last value wins)
+    are kept for reference only. *)
 Fixpoint dict_put {A} (k : bytes) (v : A) (d : list (bytes * A)) : list (bytes * A) :=
   match d with
   | [] => [(k, v)]
@@ -124,12 +140,6 @@ Fixpoint dict_get {A} (k : bytes) (d : list (bytes * A)) : option A :=
   match d with
   | [] => None
   | (k', v) :: t => if bytes_eqb k k' then Some v else dict_get k t
-  end.
-
-Fixpoint keys_nodup (ks : list bytes) : bool :=
-  match ks with
-  | [] => true
-  | k :: t => negb (existsb (bytes_eqb k) t) && keys_nodup t
   end.
 
 (** ** Exact integer value of a binary64 bit pattern.
